@@ -238,7 +238,7 @@ def spStep (durable : Bool) : St × W → SpOp → St × W
             invalidated := w.invalidated ++
               (s.sps.filter (fun x => x.valid && decide (sid < x.sid))).map (·.sid),
             dfreed := upTo sp.id w.dfreed,
-            ok := w.ok && w.restored.isNone && sp.valid && decide (sid ∉ w.invalidated) &&
+            ok := w.ok && w.restored.isNone && sp.valid && decide (sid ∉ w.invalidated) && decide (sid ∉ w.deleted) &&
               (durable || (laterPersistent s w sid).isEmpty) })
 
 def runSpOps (durable : Bool) (s : St) (ops : List SpOp) : St × W :=
@@ -477,6 +477,22 @@ def init : St :=
 def disjoint (a b : List Nat) : Bool := a.all (fun p => decide (p ∉ b))
 def subset (a b : List Nat) : Bool := a.all (fun p => decide (p ∈ b))
 
+/-- the epilogue of durable commit `n`, if it runs in state `c`, produces a duplicate-free system
+tree whose gained pages were free while it was written -/
+def epilogueGuard (c : St) (t : Txn) (n : Nat) (h : Option Nat) : Bool :=
+  if t.epilogue && epilogueRuns c n h then
+    decide t.sys2.Nodup && disjoint (diff t.sys2 t.sys) (epiRelease c (epilogueUntil c n h)).alloc
+  else true
+
+/-- pages the system tree gained were free while the durable commit wrote it (after
+`process_freed_pages`, which may hand it the pages it just released) -/
+def durableGuard (s1 : St) (w : W) (t : Txn) (n : Nat) : Bool :=
+  disjoint (diff t.sys s1.sys) (durableReleased s1 w t n).alloc &&
+  epilogueGuard (durableCommitted s1 w t n) t n (spHorizon s1.sps w)
+
+def nonDurableGuard (s1 : St) (w : W) (t : Txn) (n : Nat) : Bool :=
+  !t.qr && disjoint (diff t.sys s1.sys) (nonDurableReclaimed s1 w t n).alloc
+
 /-- well-formedness of a committing write transaction: the savepoint operations were accepted,
 the new trees are duplicate-free lists, and every page a tree gained was free in the allocator at
 the time the commit wrote that tree -/
@@ -486,21 +502,12 @@ def commitGuard (s : St) (t : Txn) : Bool :=
   let sw := runSpOps t.durable s0 t.spOps
   let s1 := sw.1
   let w := sw.2
-  w.ok && t.data.Nodup && t.sys.Nodup &&
+  w.ok && decide t.data.Nodup && decide t.sys.Nodup &&
   -- pages the data tree gained were free when the transaction allocated them
-  disjoint (dataGain w t) s.alloc &&
+  disjoint (dataGain w t) s1.alloc &&
   -- only a quick-repair commit records lost system pages before it is durable
-  subset t.sysRec (diff s.sys t.sys) && t.sysRec.Nodup && (t.qr || t.sysRec.isEmpty) &&
-  (if t.durable then
-    -- pages the system tree gained were free while the commit wrote it
-    disjoint (diff t.sys s.sys) (durableReleased s1 w t n).alloc &&
-    (let c := durableCommitted s1 w t n
-     let h := spHorizon s1.sps w
-     if t.epilogue && epilogueRuns c n h then
-       t.sys2.Nodup && disjoint (diff t.sys2 t.sys) (epiRelease c (epilogueUntil c n h)).alloc
-     else true)
-  else
-    !t.qr && disjoint (diff t.sys s.sys) (nonDurableReclaimed s1 w t n).alloc)
+  subset t.sysRec (diff s1.sys t.sys) && decide t.sysRec.Nodup && (t.qr || t.sysRec.isEmpty) &&
+  (if t.durable then durableGuard s1 w t n else nonDurableGuard s1 w t n)
 
 def guardB (s : St) : Op → Bool
   | .commit t => commitGuard s t
